@@ -55,6 +55,7 @@ struct TaskCtl {
   int no_preempt = 0;      // > 0: yields do not switch (sweeps)
   uint32_t op_index = 0;   // index of the operation being executed
   int op_kind = -1;        // its kind (for the death line)
+  int note = 0;            // 1: the call in progress has to be refused (C08), 2: valid arithmetic call (C03)
   uint32_t yidx = 0;       // yield points seen in this operation
   uint32_t alloc_idx = 0;  // allocation points seen in this operation
   uint32_t scalar_idx = 0; // scalar-operation points seen in this operation
